@@ -221,7 +221,8 @@ def path_without_success(f: Func, target: int, test_dests, start: int = 0, limit
     negation of another local (so `ok = a(x) && b(y); if !ok { return Err }` and `matches!`-style materialised tests are followed),
     keeps branch decisions consistent, and never takes the true branch of a decision on a test result.
     Returns a witness list of blocks, or None when every path to `target` has seen one of the tests succeed."""
-    tests = set(test_dests)
+    # test_dests: locals whose TRUE value is the success, or a dict local -> wanted outcome (False: success is the false branch)
+    tests = dict(test_dests) if isinstance(test_dests, dict) else {l: True for l in test_dests}
 
     def is_bool(l):
         return norm(f.local_ty(l)) == "bool"
@@ -314,7 +315,7 @@ def path_without_success(f: Func, target: int, test_dests, start: int = 0, limit
                     actual = taken if pol else not taken
                     if r in dec and dec[r] != actual:
                         continue
-                    if r in tests and actual:
+                    if r in tests and actual == tests[r]:
                         continue
                     d2 = dict(dec)
                     d2[r] = actual
